@@ -765,6 +765,10 @@ def c9(repo: Repo) -> RuleResult:
                     for a in ast.walk(fi.node):
                         if isinstance(a, ast.Assign) and src_of(a.targets[0]) == arg.id and isinstance(a.value, ast.Constant) and isinstance(a.value.value, str):
                             names.append(a.value.value)
+                    # a module-level constant
+                    mc = mod.assigns.get(arg.id)
+                    if not names and isinstance(mc, ast.Constant) and isinstance(mc.value, str):
+                        names.append(mc.value)
                     # option_name = self.definition_name_prefix_option_name(): literals returned by the overrides
                     for a in ast.walk(fi.node):
                         if isinstance(a, ast.Assign) and src_of(a.targets[0]) == arg.id and isinstance(a.value, ast.Call) and isinstance(a.value.func, ast.Attribute):
